@@ -150,7 +150,7 @@ fn c11(seed: u64, thorough: bool) -> Scenario {
             } else if roll < 7 {
                 // one pure insertion: only the blocks that contain the new line are modified
                 if let Some(l) = g.pick_insert_line(i) {
-                    g.world.files[i].diff = FileDiff::Insert { line: l, renamed_from: None, edit: LineEdit::Inserted };
+                    g.world.files[i].diff = FileDiff::Insert { line: l, renamed_from: None, edit: LineEdit::Inserted, more: vec![] };
                     g.vary_edit(i);
                     g.maybe_rename(i);
                 }
@@ -732,7 +732,7 @@ fn c14(seed: u64, thorough: bool) -> Scenario {
                 g.world.files[i].diff = FileDiff::Added;
             } else if roll < 7 {
                 if let Some(l) = g.pick_insert_line(i) {
-                    g.world.files[i].diff = FileDiff::Insert { line: l, renamed_from: None, edit: LineEdit::Inserted };
+                    g.world.files[i].diff = FileDiff::Insert { line: l, renamed_from: None, edit: LineEdit::Inserted, more: vec![] };
                     g.vary_edit(i);
                     g.maybe_rename(i);
                 }
@@ -1021,7 +1021,7 @@ fn c15(seed: u64, thorough: bool) -> Scenario {
                 g.world.files[i].diff = FileDiff::Added;
             } else if roll < 6 {
                 if let Some(l) = g.pick_insert_line(i) {
-                    g.world.files[i].diff = FileDiff::Insert { line: l, renamed_from: None, edit: LineEdit::Inserted };
+                    g.world.files[i].diff = FileDiff::Insert { line: l, renamed_from: None, edit: LineEdit::Inserted, more: vec![] };
                     g.vary_edit(i);
                     g.maybe_rename(i);
                 }
@@ -1066,7 +1066,7 @@ fn diff_mode_for_async_worlds(g: &mut Gen) {
             0..=4 => g.world.files[i].diff = FileDiff::Added,
             5 | 6 => {
                 if let Some(l) = g.pick_insert_line(i) {
-                    g.world.files[i].diff = FileDiff::Insert { line: l, renamed_from: None, edit: LineEdit::Inserted };
+                    g.world.files[i].diff = FileDiff::Insert { line: l, renamed_from: None, edit: LineEdit::Inserted, more: vec![] };
                     g.vary_edit(i);
                     g.maybe_rename(i);
                 }
